@@ -315,6 +315,79 @@ def h_membership_text(eng, sep):
     eng.prove(set(dir(ureg.sys.S)) >= want, "text:sys-attributes")
 
 
+def h_failed_system_declaration(eng, where):
+    """a @system block that is refused (a rule naming a unit that is not a root unit) leaves no
+    system behind: not selectable, not listed, and the corrected block is accepted afterwards"""
+    sf, sl, x = eng.real("sf"), eng.real("sl"), eng.real("x")
+    eng.assume(sf > 0)
+    eng.assume(sl > 0)
+    L = eng.lit
+    base = ["m = [length]", "s = [time]", "g = [mass]", f"ft = {L(sf)} * m", f"lb = {L(sl)} * g", "@group G", "    yd = 3 * ft", "@end", "@system good using G", "    ft", "@end"]
+    rules = {"first": ["    lb : ft", "    ft"], "second": ["    ft", "    lb : ft"], "only": ["    lb : ft"]}[where]
+    bad = ["@system W using G"] + rules + ["@end"]
+    ureg = pint.UnitRegistry(base, non_int_type=eng.ntype)
+    try:
+        ureg.define("\n".join(bad))
+    except ValueError:
+        eng.prove(True, f"{where}:bad-system-refused")
+    else:
+        eng.fail(f"{where}:bad-system-accepted")
+    eng.prove("W" not in dir(ureg.sys), f"{where}:not-listed")
+    try:
+        ureg.default_system = "W"
+    except (ValueError, KeyError):
+        eng.prove(True, f"{where}:not-selectable")
+    else:
+        eng.fail(f"{where}:half-built-system-selectable", stop=False)
+        ureg.default_system = None
+    try:
+        ureg.get_base_units("ft", system="W")
+    except (ValueError, KeyError):
+        eng.prove(True, f"{where}:explicit-system-query-refused")
+    else:
+        eng.fail(f"{where}:half-built-system-answers", stop=False)
+    eng.prove(set(ureg.Unit("yd").systems) == {"good"}, f"{where}:Unit.systems-unaffected")
+    # the corrected declaration is accepted and works
+    ureg.define("\n".join(["@system W using G", "    ft", "    lb", "@end"]))
+    f, bu = ureg.get_base_units("m", system="W")
+    eng.prove(str(bu) == "ft" and Eq(f, 1 / sf), f"{where}:corrected-declaration-works")
+    f, bu = ureg.get_base_units("g", system="W")
+    eng.prove(str(bu) == "lb" and Eq(f, 1 / sl), f"{where}:corrected-declaration-second-rule")
+    eng.prove(set(ureg.get_system("W").members) == {"yd"}, f"{where}:corrected-declaration-members")
+
+
+def h_late_group(eng, how):
+    """a system may name a group that is declared later: once the group exists and has units,
+    the system's members, restricted listings and Unit.systems include them -- whatever was read
+    (and memoised) before"""
+    base = ["m = [length]", "s = [time]", "ft = 3 * m", "minute = 60 * s", "@system S using Late", "    ft", "@end", "@group Early", "    yd = 3 * ft", "@end"]
+    for pre in ("nothing", "system-members", "compatible", "all"):
+        ureg = pint.UnitRegistry(base, non_int_type=eng.ntype)
+        if pre in ("system-members", "all"):
+            set(ureg.get_system("S").members)
+        if pre in ("compatible", "all"):
+            ureg.get_compatible_units("m", "S")
+            ureg.Unit("yd").systems
+        if how == "api":
+            g = ureg.get_group("Late")
+            g.add_units("yd")
+            ureg.define("furl = 660 * ft")
+            g.add_units("furl")
+        elif how == "text-using":
+            ureg.define("@group Late using Early\n    furl = 660 * ft\n@end")
+        else:
+            ureg.define("@group Late\n    furl = 660 * ft\n    yd2 = 3 * ft\n@end")
+        want = {"api": {"yd", "furl"}, "text-using": {"yd", "furl"}, "text": {"furl", "yd2"}}[how]
+        eng.prove(set(ureg.get_system("S").members) == want, f"late-group:{how}:pre={pre}:system-members")
+        eng.prove(all("S" in ureg.Unit(u).systems for u in want), f"late-group:{how}:pre={pre}:Unit.systems")
+        # (units that arrive through define() are missing from every compatible-unit listing: known
+        # finding K4; the listings are compared on the units that existed from the start)
+        old_units = want & {"yd"}
+        eng.prove({str(u) for u in ureg.get_compatible_units("m", "S")} & {"yd", "ft", "m"} == old_units, f"late-group:{how}:pre={pre}:compatible-in-system")
+        ureg.default_system = "S"
+        eng.prove({str(u) for u in ureg.get_compatible_units("m")} & {"yd", "ft", "m"} == old_units, f"late-group:{how}:pre={pre}:compatible-under-default-system")
+
+
 def _reach(uses, i):
     seen = set()
     todo = [i]
@@ -388,6 +461,10 @@ def cases(tier, seed):
             out.append(Case("H14.c", f"{e[0]}:{e[1]}:{e[2]}:pre={pre}", M, "h_membership", {"edit": list(e), "pre": pre}, opts={"max_paths": 5000}, validate=2 if pre == "all" else 0, weight=40.0))
     for sep in (", ", ",", " , ", ",  ", " ,") if big else (", ", ",", ",  "):
         out.append(Case("H14.c", f"text:sep={sep!r}", M, "h_membership_text", {"sep": sep}, opts={"max_paths": 5000}, validate=2, weight=40.0))
+    for where in ("first", "second", "only"):
+        out.append(Case("H14.b", f"failed-system-declaration:{where}", M, "h_failed_system_declaration", {"where": where}, opts={"hash_mode": "mixed"}, validate=1))
+    for how in ("api", "text-using", "text"):
+        out.append(Case("H14.c", f"late-group:{how}", M, "h_late_group", {"how": how}, validate=1))
     out.append(Case("H14.c-default", "members", M, "h_default_membership", {}, kind="conc"))
     out.append(Case("H14.d", "sys-attr", M, "h_sys_attr", {}, validate=1))
     return out
